@@ -38,6 +38,10 @@ func runC03(p *Prog, r *Report) {
 	if want("C03.8") {
 		ruleLevelsImmutable(p, r, "C03.8")
 	}
+	if want("C03.14") {
+		// transaction / large-batch records are newer than every earlier snapshot (shared with C11.1b)
+		ruleTrRecordSeq(p, r, "C03.14")
+	}
 	if want("C03.13") {
 		// an iterator drops what it pinned exactly once (shared with C07.10)
 		ruleReleaseOnce(p, r, "C03.13")
